@@ -50,7 +50,7 @@ func genZipkinBatch(r *vgen.Rand) (tracetest.SpanStubs, bool) {
 	for i := 0; i < n; i++ {
 		st := tracetest.SpanStub{
 			Name:     vgen.Pick(r, []string{"op", "GET /Users/{ID}", "", "SELECT", "Recv.Msg", "lower_only", "MiXeD Case 9"}),
-			SpanKind: trace.SpanKind(r.Intn(6)),
+			SpanKind: trace.SpanKind(vgen.Pick(r, []int{0, 1, 2, 3, 4, 5, 0, 1, 2, 3, 4, 5, 0, 1, 2, 3, 4, 5, 6})), // 6: the switch's fall-through (outside the guard)
 			Resource: res, InstrumentationScope: instrumentation.Scope{Name: "lib/z", Version: "v1"},
 			Status: tracesdk.Status{Code: codes.Code(r.Intn(3))},
 		}
@@ -101,11 +101,11 @@ func genZipkinBatch(r *vgen.Rand) (tracetest.SpanStubs, bool) {
 		case 0: // zero start time: no timestamp
 			st.StartTime, st.EndTime = time.Time{}, time.Time{}
 		case 1: // before 1970-01-01T00:00:01Z: outside the guard, the export fails
-			st.StartTime = time.Unix(0, int64(r.Intn(1_000_000_000)))
+			st.StartTime = time.Unix(0, vgen.Pick(r, []int64{999_999_999, 1, int64(r.Intn(1_000_000_000))}))
 			st.EndTime = st.StartTime.Add(time.Duration(d % 1_000_000))
 			valid = false
 		case 2: // negative duration: outside the guard, the export fails
-			st.EndTime = st.StartTime.Add(-time.Duration(1 + r.Intn(5000)))
+			st.EndTime = st.StartTime.Add(-time.Duration(vgen.Pick(r, []int{1, 1 + r.Intn(5000)})))
 			valid = false
 		}
 		if r.Chance(1, 3) {
@@ -197,6 +197,8 @@ func runZipkin(ctx context.Context, w *vgen.Writer, r *vgen.Rand, o vgen.Opts, h
 		one(tracetest.SpanStubs{mk(1, "Client Call", trace.SpanKindClient, baseNanos+499, 2_500_500), mk(2, "srv", trace.SpanKindServer, baseNanos+500, 1499),
 			mk(3, "int", trace.SpanKindInternal, baseNanos, 1), mk(4, "prod", trace.SpanKindProducer, baseNanos, 0), mk(5, "cons", trace.SpanKindConsumer, 1_000_000_000, 1500)}, true, "zipkin-corpus")
 	})
+	// exporter-level path: an empty batch sends no request
+	guard(map[string]any{"signal": "zipkin", "corpus": 1}, func() { one(nil, true, "zipkin-corpus") })
 	n := o.Count(230, 6000)
 	for i := 0; i < n; i++ {
 		stubs, valid := genZipkinBatch(r)
